@@ -410,6 +410,15 @@ def register_corollaries(cor):
         "by (intros a b; unfold b_kernel; f_equal; apply map_ext; intros h; unfold b_kernel_term; rewrite tie_binary_prob_h_given_v, tie_binary_prob_v_given_h; reflexivity); "
         "rewrite !E; exact (detailed_balance_binary nv nh r H s s' Hs Hs')",
         imports=["Gibbs", "GibbsT"])
+    # C05: the law of the EXTRACTED Gibbs loop (interpreted on all draw sequences, each weighted by the Bernoulli probabilities the loop requested for it)
+    # is the k-th power of the block-Gibbs kernel
+    cor("C05", "k_step_law_of_the_extracted_binary_gibbs_loop",
+        "forall nv nh (r : @brbm R), b_shape nv nh r -> forall k s s' h0 a0, "
+        "sum ROps (map (fun ds => let res := run_gibbs (b_prob_h_given_v ROps r) (fun _ => []) (b_prob_v_given_h ROps r) (fun _ _ => []) gen_gibbs_loop_binary k s h0 a0 ds in "
+        "(run_weight ROps (snd res) ds * indicator ROps (fst res) s')%R) (all_draws (b_draw_shape nv (length (bc r)) k))) = kpow ROps nv (b_kernel ROps r) k s s'",
+        "intros nv nh r H k s s' h0 a0; rewrite <- (b_kstep_law nv nh r H k s s'); unfold b_sampler_law; f_equal; apply map_ext; intros ds; "
+        "rewrite tie_gibbs_loop_binary; reflexivity",
+        imports=["Gibbs", "GibbsT", "GibbsSkel"])
     cor("C05", "detailed_balance_of_the_translated_purification_sampler",
         "forall nv nh na (r : @prbm R), p_shape nv nh na r -> forall s s', length s = nv -> length s' = nv -> "
         "let K := fun x y => sum ROps (map (fun h => sum ROps (map (fun a => ((bern_prod ROps (gen_purification_prob_h_given_v r x) h * bern_prod ROps (gen_purification_prob_a_given_v r x) a) "
